@@ -42,6 +42,7 @@ namespace bxdecay0 {
                    double thnuc_,
                    double & tdnuc_)
   {
+    BXDECAY0_VERIF_SCOPE("beta", Qbeta_, Zdtr_, tcnuc_, thnuc_);
     parbeta pars;
     pars.Zdtr  = Zdtr_;
     pars.Qbeta = Qbeta_;
@@ -66,6 +67,7 @@ namespace bxdecay0 {
       E  = 50.e-6 + (Qbeta - 50.e-6) * prng_();
       fe = decay0_funbeta(E, params_);
       f  = fm * prng_();
+      BXDECAY0_VERIF_NOTE("beta_trial", E, f, fe, fm);
     } while (f > fe);
     bxdecay0::particle_code np;
     if (Zdtr >= 0.) {
